@@ -753,11 +753,15 @@ func C05(e *core.Env) {
 				res.Count("with-blank-leaves (verdicts only)")
 			}
 			if blanks == 0 && implIdx != ans.String() {
-				replay["no_failing_input_found"] = true
-				replay["broken"] = "correspondence JsonLd.flatten vs ProcessInput (json-gold flatten + Index)"
-				replay["impl_index"] = core.Trunc(implIdx, 3000)
-				replay["model_index"] = core.Trunc(ans.String(), 3000)
-				res.Violate("model-mismatch", "the index of a serialisation differs from the model's", replay)
+				mm := map[string]any{}
+				for k, v := range replay {
+					mm[k] = v
+				}
+				mm["no_failing_input_found"] = true
+				mm["broken"] = "correspondence JsonLd.flatten vs ProcessInput (json-gold flatten + Index)"
+				mm["impl_index"] = core.Trunc(implIdx, 3000)
+				mm["model_index"] = core.Trunc(ans.String(), 3000)
+				res.Violate("model-mismatch", "the index of a serialisation differs from the model's", mm)
 			}
 			// (b) verdicts across serialisations
 			out, verr := pkg.ValidateCompiledWithConfiguration(compiled, text, false, nil, clockA, rc)
